@@ -958,14 +958,14 @@ pub fn record_faults(label: &str, s: &[u8], biff: bool, caps: &Caps, ch: &mut Ch
                 }
                 if biff {
                     let orig = u16::from_le_bytes([s[fo], s[fo + 1]]);
-                    for val in [0u16, 0xFFFF, 0x7FFF, 0x8000, orig.wrapping_add(1), 0x0100] {
+                    for val in [0u16, 0xFFFF, 0x7FFF, 0x8000, orig.wrapping_add(1), 0x0100, 1, 2, 3, orig.wrapping_sub(1), orig.wrapping_sub(2), orig / 2] {
                         if val != orig {
                             v.push(mk(set_u16(fo, val), format!("{}:field {} u16 at +{} {:#x} -> {:#x}", pfx, tname, f * 2, orig, val)));
                         }
                     }
                 } else {
                     let orig = u32::from_le_bytes([s[fo], s[fo + 1], s[fo + 2], s[fo + 3]]);
-                    for val in [0u32, 0xFFFF_FFFF, 0x7FFF_FFFF, 0x8000_0000, orig.wrapping_add(1), 0x0010_0000, 0x0000_FFFF] {
+                    for val in [0u32, 0xFFFF_FFFF, 0x7FFF_FFFF, 0x8000_0000, orig.wrapping_add(1), 0x0010_0000, 0x0000_FFFF, 1, 2, 3, orig.wrapping_sub(1), orig.wrapping_sub(2), orig / 2] {
                         if val != orig {
                             v.push(mk(set_u32(fo, val), format!("{}:field {} u32 at +{} {:#x} -> {:#x}", pfx, tname, f * 4, orig, val)));
                         }
@@ -978,6 +978,58 @@ pub fn record_faults(label: &str, s: &[u8], biff: bool, caps: &Caps, ch: &mut Ch
                 if fo < s.len() {
                     v.push(mk(Edit::Set { off: fo, bytes: vec![0xFF] }, format!("{}:field {} byte at +{} -> 0xFF", pfx, tname, f)));
                 }
+            }
+        }
+    }
+    v
+}
+
+/// Token streams with their own length inside a record (formulas, defined names): cut after
+/// 1..14 bytes *keeping the first token*, so that every operand read of that token meets a
+/// stream that is too short (the record stays well-formed around it).
+pub fn rgce_truncations(label: &str, s: &[u8], biff: bool, mk: &dyn Fn(Edit, String) -> StoredFault) -> Vec<StoredFault> {
+    let mut v = Vec::new();
+    let recs = if biff { biff_records(s) } else { xlsb_records(s) };
+    let mut seen: std::collections::HashMap<u32, usize> = std::collections::HashMap::new();
+    for r in recs {
+        if r.off + r.hdr + r.len > s.len() {
+            break;
+        }
+        let body = r.off + r.hdr;
+        // (offset of the length field, its width, is the stream at the end of the record?)
+        let spec: Option<(usize, usize, bool)> = match (biff, r.typ) {
+            (true, 0x0006) if r.len >= 22 => Some((20, 2, false)),
+            (true, 0x0018) if r.len >= 15 => Some((4, 2, true)),
+            (false, 0x0009) if r.len >= 22 => Some((18, 4, false)),
+            (false, 0x000A) | (false, 0x000B) if r.len >= 15 => Some((11, 4, false)),
+            _ => None,
+        };
+        let (lo, w, at_end) = match spec {
+            Some(x) => x,
+            None => continue,
+        };
+        let c = seen.entry(r.typ).or_insert(0);
+        *c += 1;
+        if *c > 3 {
+            continue;
+        }
+        let cce = if w == 2 { u16::from_le_bytes([s[body + lo], s[body + lo + 1]]) as usize } else { u32::from_le_bytes([s[body + lo], s[body + lo + 1], s[body + lo + 2], s[body + lo + 3]]) as usize };
+        if cce == 0 || cce > r.len {
+            continue;
+        }
+        for k in 1..cce.min(15) {
+            let newlen: Vec<u8> = if w == 2 { (k as u16).to_le_bytes().to_vec() } else { (k as u32).to_le_bytes().to_vec() };
+            let why = format!("{}:rgce-trunc {} record at {} type {:#06x}: token stream of {} bytes cut to {}", if biff { "biff" } else { "xlsb" }, label, r.off, r.typ, cce, k);
+            if at_end && biff {
+                // the stream is the tail of the record: drop the bytes after the first k and shorten the record
+                let start = body + r.len - cce;
+                let cut = cce - k;
+                v.push(mk(Edit::Set { off: body + lo, bytes: newlen }, why));
+                v.push(mk(Edit::Set { off: r.off + 2, bytes: ((r.len - cut) as u16).to_le_bytes().to_vec() }, "+".into()));
+                v.push(mk(Edit::Delete { off: start + k, len: cut }, "+".into()));
+            } else {
+                // the stream is followed by other fields: only its declared length shrinks
+                v.push(mk(Edit::Set { off: body + lo, bytes: newlen }, why));
             }
         }
     }
@@ -1257,6 +1309,7 @@ pub fn sites(fx: &Fixture, parts: &mut Parts, tier: Tier) -> Vec<SiteGroup> {
                 let mk = move |e: Edit, why: String| StoredFault { layer: Layer::ZipPart { part: nn.clone(), pack: if why.len() % 2 == 0 { Pack::Stored } else { Pack::Deflated } }, edit: Some(e), why };
                 push(None, record_faults(n, &data, false, &caps, &mut ch, &mk), &mut all);
                 push(None, xlsb_formula_nesting(n, &data), &mut all);
+                push(None, rgce_truncations(n, &data, false, &mk), &mut all);
                 push(None, part_truncations(n, &data, &caps, &mut ch), &mut all);
                 push(None, part_flips(n, &data, caps.flips / 2, &mut ch), &mut all);
             } else if n.ends_with("vbaProject.bin") {
@@ -1337,6 +1390,7 @@ pub fn sites(fx: &Fixture, parts: &mut Parts, tier: Tier) -> Vec<SiteGroup> {
                     let nm = e.name.clone();
                     let mk = move |ed: Edit, why: String| StoredFault { layer: Layer::CfbStream { stream: nm.clone() }, edit: Some(ed), why };
                     push(None, record_faults(&e.name, s, true, &caps, &mut ch, &mk), &mut all);
+                    push(None, rgce_truncations(&e.name, s, true, &mk), &mut all);
                     let mut fs = Vec::new();
                     for _ in 0..caps.flips {
                         let off = ch.below(s.len() as u64) as usize;
